@@ -72,6 +72,9 @@ def gen_plan(seed, tier="quick", variant=None):
                 apiv[str(n)] = "none-close"
             elif r < 0.25:
                 apiv[str(n)] = "none-silent"
+            elif r < 0.5:
+                from .cluster import version_table
+                apiv[str(n)] = version_table(*rng.choice([(3, 3), (5, 6), (8, 11), (2, 11), (9, 2)]))
     timeout_ms = 5000 if clean else rng.choice([300, 1000, 5000])
     batch = rng.random() < (0.85 if clean else 0.6)
     pc = {
@@ -135,6 +138,13 @@ def gen_plan(seed, tier="quick", variant=None):
     for _ in range(rng.choice([0, 0, 1, 2])):
         ops.append({"on": rng.randint(0, 4), "delay": round(rng.choice([0.0, 0.0002, 0.002, 0.02]), 6), "op": "cancel",
                     "id": rng.randint(0, nsend - 1)})
+    if variant in ("faulty", "clean") and batch and random.Random(seed * 131 + 7).random() < 0.15:
+        # late cancel of a send whose partition lookup is still going on (and will fail): its batch-mates must go out
+        r2 = random.Random(seed * 131 + 8)
+        victim = r2.choice([o for o in ops if o["op"] == "send"])
+        victim["topic"] = "nosuch"
+        ops.append({"on_lookup": r2.randint(0, 2), "delay": round(r2.choice([0.0005, 0.01, 0.1]), 6), "op": "cancel", "id": victim["id"]})
+        pc["max_attempts"] = min(pc["max_attempts"], 3)
     if rng.random() < 0.25 and variant != "recovery":
         if rng.random() < 0.5:
             ops.append({"t": round(rng.random() * horizon * 1.5, 6), "op": "stop"})
@@ -336,7 +346,18 @@ def _run(w, plan):
 
     produce_calls = []
 
+    on_lookup_ops = {}
+    for o in plan["ops"]:
+        if "on_lookup" in o:
+            on_lookup_ops.setdefault(o["on_lookup"], []).append(o)
+    lookups = {"n": 0}
+
     def api_hook(kind, rec):
+        if rec["name"] == "load_metadata_for_topics" and kind == "call":
+            k = lookups["n"]
+            lookups["n"] += 1
+            for o in on_lookup_ops.pop(k, ()):
+                sim.after(o["delay"], do_op, o)
         if rec["name"] != "send_produce_request":
             return
         if kind == "call":
@@ -637,6 +658,14 @@ def _run(w, plan):
         res.violate("C01", "C01:never-fired:producer-quiescent-faults-over",
                     "sends %r still unresolved %.0f s after the last fault" % (unfired_before_stop[:5], settle_t - plan["t_faults_end"]))
 
+    # ---- C19: cancelling one send only detaches its caller - the sends that were outstanding with it still get results ----
+    if liveness_applicable and unfired_before_stop and (state.get("stop_t") or 0) >= settle_t:
+        cancels = [sends[x] for x in order if sends[x]["cancel_seq"] is not None]
+        hung = [x for x in unfired_before_stop if any(sends[x]["seq"] < c_["cancel_seq"] for c_ in cancels)]
+        if hung:
+            res.violate("C19", "C19:sends-outstanding-at-a-cancel-never-resolved",
+                        "sends %r were outstanding when another send was cancelled and are still unresolved %.0f s after the last fault" % (
+                            hung[:5], settle_t - plan["t_faults_end"]))
     # ---- C19 (one-directional clauses, every variant) ----
     for sid in order:
         s = sends[sid]
